@@ -19,7 +19,7 @@ from ..tlc import validate_traces
 
 TIERS = {
     "quick": dict(char=[("num", 4), ("pyop", 3), ("str", 4), ("indent", 5), ("py", 3)], variants=1, cap=250, corpus_cap=150),
-    "thorough": dict(char=[("num", 6), ("pyop", 4), ("str", 6), ("indent", 7), ("py", 5)], variants=3, cap=5000, corpus_cap=100000),
+    "thorough": dict(char=[("num", 5), ("pyop", 4), ("str", 5), ("indent", 6), ("py", 4)], variants=1, cap=3000, corpus_cap=100000),
 }
 alpha.SUB["pyop"] = list("@&|<>=:.()[]{}*/-+%^~,;!") + ["a", "1", "sp"]
 
